@@ -670,7 +670,7 @@ fn readonly_pool(kind: Kind, uni: &[u32], rng: &mut Rng) -> Op {
             14..=17 if has_iters(kind) => {
                 let fams: &[Fam] = if kind == Kind::Lru { &FAMS } else { &FAMS[..10] };
                 let steps = rng.range(0, 9) as u8;
-                Op::Iter(IterSpec { list: rng.below(nl) as u8, fam: *rng.pick(fams), steps, pat: rng.next() as u32 & 0x1ff, write: false, clone_at: if rng.chance(1, 2) { rng.range(0, steps as u64) as u8 } else { 255 }, fin: rng.below(6) as u8 })
+                Op::Iter(IterSpec { list: rng.below(nl) as u8, fam: *rng.pick(fams), steps, pat: rng.next() as u32 & 0x1ff, write: false, clone_at: if rng.chance(1, 2) { rng.range(0, steps as u64) as u8 } else { 255 }, fin: rng.below(9) as u8 })
             }
             _ => continue,
         };
